@@ -256,6 +256,11 @@ func RefEncode(f *RFrame) ([]byte, []LenField) {
 		e.hpai(f.Control)
 		e.devinfo(f.Dev)
 		e.families(f.Fam)
+		for _, x := range f.Extra { // further description blocks behind the two mandatory ones (extended search responses)
+			e.lenOctet("dib-extra", int(x.Len))
+			e.u8(x.Type)
+			e.raw(x.Body)
+		}
 	case SvcDescrRes:
 		e.devinfo(f.Dev)
 		e.families(f.Fam)
